@@ -475,6 +475,91 @@ theorem spav_round {votes : Profile} (hwf : WF votes) (elected : List Cand) :
       obtain ⟨v, hv⟩ := toModel c hc
       rw [hm] at hv; cases hv
 
+/-- generic form of `spav_round`: `get_n_best(d, 1)` of a table with distinct keys `rest` and values `f` -/
+theorem table_round {rv : Votes} (hknd : (keys rv).Nodup) {rest : List Cand} (hrestnd : rest.Nodup)
+    (hkeys : ∀ c, c ∈ keys rv ↔ c ∈ rest) (f : Cand → Rat) (hval : ∀ p ∈ rv, p.2 = f p.1) :
+    let ismax := fun c => rest.all (fun d => decide (f d ≤ f c))
+    (rest = [] ∧ getNBest rv 1 = []) ∨
+    (∃ c, rest ≠ [] ∧ rest.filter ismax = [c] ∧ getNBest rv 1 = [Slot.cand c]) ∨
+    (rest ≠ [] ∧ (∀ c, rest.filter ismax ≠ [c]) ∧ ∃ T, getNBest rv 1 = [Slot.tie T]) := by
+  intro ismax
+  have hrvnd : rv.Nodup := List.Nodup.of_map _ hknd
+  rw [getNBest_one rv]
+  by_cases hempty : rv = []
+  · left
+    refine ⟨?_, by rw [hempty]⟩
+    apply List.eq_nil_iff_forall_not_mem.mpr
+    intro c hc
+    have := (hkeys c).mpr hc
+    rw [hempty] at this
+    simp [keys] at this
+  · right
+    have hrest_ne : rest ≠ [] := by
+      intro h
+      obtain ⟨p, hp⟩ := List.exists_mem_of_ne_nil _ hempty
+      have : p.1 ∈ rest := (hkeys p.1).mp (List.mem_map.mpr ⟨p, hp, rfl⟩)
+      rw [h] at this; cases this
+    have hmatch : (match rv with
+        | [] => ([] : List Slot)
+        | _ => match rv.filter (fun (p : Cand × Rat) => rv.all (fun q => decide (q.2 ≤ p.2))) with
+          | [p] => [Slot.cand p.1]
+          | mx => [Slot.tie (mx.map (fun (x : Cand × Rat) => x.1))]) =
+        (match rv.filter (fun (p : Cand × Rat) => rv.all (fun q => decide (q.2 ≤ p.2))) with
+          | [p] => [Slot.cand p.1]
+          | mx => [Slot.tie (mx.map (fun (x : Cand × Rat) => x.1))]) := by
+      cases hh : rv with
+      | nil => exact absurd hh hempty
+      | cons _ _ => rfl
+    rw [hmatch]
+    -- bridge between the two unique-strict-maximum statements
+    have hA := fun (p : Cand × Rat) => argmax_singleton_iff hrvnd (fun q : Cand × Rat => q.2) (a := p)
+    have hB := fun (c : Cand) => argmax_singleton_iff hrestnd (fun d => f d) (a := c)
+    have toSpec : ∀ p, rv.filter (fun p => rv.all (fun q => decide (q.2 ≤ p.2))) = [p] → rest.filter ismax = [p.1] := by
+      intro p hp
+      obtain ⟨hpm, hlt⟩ := (hA p).mp hp
+      apply (hB p.1).mpr
+      refine ⟨(hkeys p.1).mp (List.mem_map.mpr ⟨p, hpm, rfl⟩), ?_⟩
+      intro d hd hne
+      obtain ⟨v, hv⟩ := mem_of_mem_keys ((hkeys d).mpr hd)
+      have hqne : (d, v) ≠ p := by
+        intro h; apply hne; rw [← h]
+      have := hlt (d, v) hv hqne
+      rw [hval (d, v) hv, hval p hpm] at this
+      exact this
+    have toModel : ∀ c, rest.filter ismax = [c] →
+        ∃ v, rv.filter (fun p => rv.all (fun q => decide (q.2 ≤ p.2))) = [(c, v)] := by
+      intro c hc
+      obtain ⟨hcm, hlt⟩ := (hB c).mp hc
+      obtain ⟨v, hv⟩ := mem_of_mem_keys ((hkeys c).mpr hcm)
+      refine ⟨v, (hA (c, v)).mpr ⟨hv, ?_⟩⟩
+      intro q hq hne
+      have hq1 : q.1 ≠ c := by
+        intro h
+        apply hne
+        have h1 := getD_of_mem hknd hq
+        have h2 := getD_of_mem hknd hv
+        rw [h] at h1
+        simp only at h2
+        have : q.2 = v := by rw [← h1, ← h2]
+        exact Prod.ext h this
+      have := hlt q.1 ((hkeys q.1).mp (List.mem_map.mpr ⟨q, hq, rfl⟩)) hq1
+      rw [hval q hq, hval (c, v) hv]
+      exact this
+    rcases hm : rv.filter (fun p => rv.all (fun q => decide (q.2 ≤ p.2))) with _ | ⟨a, _ | ⟨b, r⟩⟩
+    · right
+      refine ⟨hrest_ne, ?_, _, by rw [hm]⟩
+      intro c hc
+      obtain ⟨v, hv⟩ := toModel c hc
+      rw [hm] at hv; cases hv
+    · left
+      exact ⟨a.1, hrest_ne, toSpec a hm, by rw [hm]⟩
+    · right
+      refine ⟨hrest_ne, ?_, _, by rw [hm]⟩
+      intro c hc
+      obtain ⟨v, hv⟩ := toModel c hc
+      rw [hm] at hv; cases hv
+
+
 /-- the code-shaped loop equals the defining recursion, from any state -/
 theorem spavGo_eq_spec {votes : Profile} (hwf : WF votes) :
     ∀ (k : Nat) (elected : List Cand), spavGo votes k elected = spavSpecGo votes k elected := by
